@@ -506,8 +506,8 @@ def _r4(chk: Check, R4: str) -> None:
             chk.unrec(R4, label, fi.where, str(e))
             continue
         allp = list(paths)
-        for p in paths[:1]:
-            for c in p.closures:
+        for c in om.all_closures(paths):
+            if True:
                 allp += closure_paths(F, fi, c)
         forbidden, unknown = {}, {}
         n_calls = 0
